@@ -88,8 +88,11 @@ Fixpoint res_ok (com : list Z) (l : list rres) (p : Z) : Prop :=
 Lemma res_ok_nonneg : forall com l p, res_ok com l p -> 0 <= p.
 Proof.
   induction l as [|x l IH]; intros p H; cbn in H; [lia|].
-  destruct x; try (destruct H as (_ & ? & _ & H)); try (destruct H as (? & _ & H));
-    try (apply IH in H; lia). apply IH; exact H.
+  destruct x.
+  - destruct H as (_ & Hn & _ & H). apply IH in H. lia.
+  - destruct H as (_ & _ & _ & H). apply IH in H. lia.
+  - destruct H as (Hn & _ & H). apply IH in H. lia.
+  - apply IH; exact H.
 Qed.
 
 Lemma res_ok_ext : forall com ext l p, res_ok com l p -> res_ok (com ++ ext) l p.
@@ -115,7 +118,8 @@ Section Invariant.
     | WOwn call r rc => rc = hcnt (RH (sm s)) (vw (sw s)) /\ r = rc mod N
     | WCopy fin w size i todo =>
         exists r w0, wtx (sw s) = Some (r, w0) /\ 0 <= i /\ Z.of_nat (length todo) = size - i /\ todo <> [] /\
-          w = (gT (sg s) - i) mod N /\ gT (sg s) - i + size - gtxr (sg s) <= N - 1
+          w = (gT (sg s) - i) mod N /\ gT (sg s) - i + size - gtxr (sg s) <= N - 1 /\
+          gtxr (sg s) <= gT (sg s) - i
     | WRel res v => v = gT (sg s) mod N
     end.
 
@@ -175,14 +179,12 @@ Section Invariant.
   Proof.
     assert (Hh : hist_ok N [(0, 0)]).
     { unfold hist_ok. cbn [length]. split; [lia|]. split.
-      - intros i Hi. assert (i = O) by lia. subst i. unfold hval, hcnt. cbn.
-        rewrite Z.mod_0_l; [lia|]. pose proof (N_pos c Hk). unfold N. lia.
+      - intros i Hi. assert (i = O) by lia. subst i. unfold hval, hcnt. cbn [nth fst snd].
+        rewrite Zmod_0_l. lia.
       - intros i j Hij Hj. assert (i = O) by lia. assert (j = O) by lia. subst. lia. }
     constructor; unfold init, Rc, Wc, committed, wpc_ok, wtx_ok, rpc_ok; proj; cbn [length lastc last snd];
       try exact Hh; try lia; try exact I; try reflexivity.
     - pose proof (N_pos c Hk). fold N. lia.
-    - intros b Hb. lia.
-    - intros b i Hb. lia.
     - intros cell Hc. fold N. split; [|split].
       + symmetry. apply Zmod_unique with (q := -1); lia.
       + lia.
@@ -191,20 +193,27 @@ Section Invariant.
 
   (* ---- consequences used everywhere *)
   Lemma inv_counts : forall s, Inv s ->
-    0 <= gtxr (sg s) /\ gtxr (sg s) <= Rc s /\ Rc s <= Wc s /\ Wc s <= gT (sg s) /\ gT (sg s) - Rc s <= N - 1 /\
-    0 <= Rc s /\ hcnt (WH (sm s)) (vr (sr s)) <= Wc s.
+    gtxr (sg s) <= Rc s /\ Rc s <= Wc s /\ Wc s <= gT (sg s) /\ gT (sg s) - Rc s <= N - 1 /\
+    0 <= Rc s /\ hcnt (WH (sm s)) (vr (sr s)) <= Wc s /\ hcnt (RH (sm s)) (vw (sw s)) <= Rc s.
   Proof.
     intros s H. destruct H.
     pose proof (hist_le_last N _ _ i_RH0 i_vw0) as A.
     pose proof (hist_le_last N _ _ i_WH0 i_vr0) as B.
     pose proof (hist_last_ok N _ i_RH0) as (_ & C).
-    unfold Rc, Wc in *.
-    assert (0 <= gtxr (sg s)) as G.
-    { (* gtxr is only ever set to a count of RH; initially 0: it is >= 0 because ... *)
-      (* follows from room and the other bounds only if we track it: use i_txr lower bound below *)
-      destruct (Z_le_gt_dec 0 (gtxr (sg s))); [assumption|].
-      exfalso. (* gT - gtxr <= N-1 and gT >= Wc >= Rc >= 0 give no contradiction in general *)
-      admit_placeholder. }
-    lia.
+    unfold Rc, Wc in *. lia.
+  Qed.
+
+  Lemma inv_heads : forall s, Inv s ->
+    lastv (RH (sm s)) = Rc s mod N /\ lastv (WH (sm s)) = Wc s mod N.
+  Proof.
+    intros s H. destruct H. unfold Rc, Wc.
+    pose proof (hist_last_ok N _ i_RH0) as (A & _).
+    pose proof (hist_last_ok N _ i_WH0) as (B & _). split; assumption.
+  Qed.
+
+  Lemma committed_length : forall s, Inv s -> Z.of_nat (length (committed s)) = Wc s.
+  Proof.
+    intros s H. pose proof (inv_counts s H) as C. destruct H. unfold committed.
+    rewrite firstn_length. lia.
   Qed.
 End Invariant.
